@@ -4,6 +4,9 @@ package view
 // simulation build: exposes what the viewer says about a counter file.
 
 import (
+	"io/fs"
+	"net/http"
+
 	"golang.org/x/telemetry/internal/config"
 	tcounter "golang.org/x/telemetry/internal/counter"
 	"golang.org/x/telemetry/internal/telemetry"
@@ -40,4 +43,12 @@ func VerifNewTelemetryReport(r *telemetry.Report, cfg *config.Config) ([]string,
 		out = append(out, string(p.Summary))
 	}
 	return out, nil
+}
+
+// VerifIndexHandler is the viewer's index page handler as Serve installs it:
+// one Server, one handler value that serves every page of the process. The
+// configuration is read from fsConfig (the -config flag of gotelemetry view).
+func VerifIndexHandler(fsConfig string, fsys fs.FS) http.Handler {
+	s := &Server{FsConfig: fsConfig}
+	return s.handleIndex(fsys)
 }
